@@ -18,7 +18,7 @@ LEVEL = 'exploration'
 BUDGET = {'quick': 4000, 'thorough': 25000}
 RULE = ("Case = sender (SBlock whose 'set' event assigns the output - and whose stop() may assign it once more -, initialised by its regular "
         "routine or by an event arriving during start-up; or a library block: Input fed by puts, Counter fed by "
-        "inc/dec/put/reset, ValuePoll whose polls yield a value or nothing; or FuncBlock identity/bool/pair/const fed by an "
+        "inc/dec/put/reset, ValuePoll whose polls yield a value or nothing, InitAsync whose coroutine yields a value, fails or times out, with or without an initdef of any truth value; or FuncBlock identity/bool/pair/const fed by an "
         "Input, one evaluation per value or several puts per evaluation) x 0-3 on_output x 0-3 "
         "on_every_output events over <=3 shared recorders, each event with 0-2 filters from "
         "{add tag, delete 'trigger', strip all items, reject-if-value-in-set} x history of 0-30 assignments over "
@@ -130,13 +130,24 @@ def cases(draw):
     elif kind == 'lib':
         # a library block as the sender: every accepted put / every counter event / every poll that
         # yields a value is one output assignment
-        case['lib'] = draw(st.sampled_from(['input', 'counter', 'valuepoll']))
+        case['lib'] = draw(st.sampled_from(['input', 'counter', 'valuepoll', 'initasync']))
         if not hist:
             case['hist'] = hist = [[draw(st.integers(0, len(POOL) - 1)), False]]
         if case['lib'] == 'counter':
             case['initdef'] = draw(st.sampled_from([0, 1, 3, 2.0]))
             case['ops'] = [[draw(st.sampled_from(['inc', 'dec', 'put', 'reset'])),
                             draw(st.sampled_from([None, 0, 0, 1, 2, 1.0, True, 0.0]))] for _ in hist]
+        elif case['lib'] == 'initasync':
+            # one assignment at most: the coroutine's result, or the initdef value (any value, false ones
+            # included) when the coroutine fails, or - without initdef - None without any event
+            case['hist'] = hist = hist[:1]
+            case['coro'] = draw(st.sampled_from(['ok', 'fail', 'fail', 'timeout']))
+            case['initdef'] = draw(st.one_of(st.none(), st.tuples(st.integers(0, len(POOL) - 1), st.just(False)).map(list)))
+            if case['coro'] != 'ok' and case['initdef'] is None:
+                # the documented silent case ("no output events are generated", the output becomes None):
+                # on_every_output events are still sent by the code; whether they count as "output events"
+                # there is not for this property to decide, so none are configured
+                case['on_every_output'] = []
         elif case['lib'] == 'valuepoll':
             # polls that yield nothing (UNDEF) between the values; never the first one
             case['gaps'] = [False] + [draw(st.integers(0, 4)) == 0 for _ in hist[1:]]
@@ -259,6 +270,22 @@ def execute(case):
             if case['lib'] == 'input':
                 assigned.extend(objs)
                 snd = edzed.Input('snd', initdef=objs[0], on_output=oo, on_every_output=eo)
+            elif case['lib'] == 'initasync':
+                async def coro():
+                    if case['coro'] == 'timeout':
+                        await __import__('asyncio').sleep(50)
+                    if case['coro'] == 'fail':
+                        raise RuntimeError('no value')
+                    return objs[0]
+                ikw = {}
+                if case['initdef'] is not None:
+                    ikw['initdef'] = mkval(*case['initdef'])
+                if case['coro'] == 'ok':
+                    assigned.append(objs[0])
+                elif case['initdef'] is not None:
+                    assigned.append(ikw['initdef'])
+                snd = edzed.InitAsync('snd', init_coro=[coro], init_timeout=3, on_output=oo,
+                                      on_every_output=eo, **ikw)
             elif case['lib'] == 'counter':
                 snd = edzed.Counter('snd', initdef=case['initdef'], on_output=oo, on_every_output=eo)
             else:
@@ -311,6 +338,8 @@ def execute(case):
                     marks.append((n0, len(log)))
                     if circuit.error is not None:
                         break
+            elif case['lib'] == 'initasync':
+                info['silent_none'] = not assigned
             else:
                 await __import__('asyncio').sleep(len(feed) + 1.5)
             info['final'] = snd.output
@@ -437,7 +466,7 @@ def execute(case):
                     res.fail('C02.identity', f"delivery {n}: {key!r} is an equal object but not the "
                              f"one that was assigned ({gd[key]!r})")
                     break
-    if (case['kind'] == 'sblock' or (case['kind'] == 'lib' and case['lib'] != 'valuepoll')) and not res.violations:
+    if (case['kind'] == 'sblock' or (case['kind'] == 'lib' and case['lib'] not in ('valuepoll', 'initasync'))) and not res.violations:
         # synchronous delivery: the deliveries of assignment k lie between its marks
         if len(marks) != len(assigned):
             res.fail('C02.marks', f"{len(marks)} assignments seen, expected {len(assigned)}")
@@ -448,7 +477,10 @@ def execute(case):
                     res.fail('C02.not_synchronous', f"assignment {k}: deliveries {want} expected "
                              f"between marks {n0}..{n1}")
                     break
-    if not same_value(info['final'], cur) and not (info['final'] == cur):
+    if info.get('silent_none'):
+        if info['final'] is not None:
+            res.fail('C02.final_output', f"InitAsync without a value and without initdef: output {info['final']!r}")
+    elif not same_value(info['final'], cur) and not (info['final'] == cur):
         res.fail('C02.final_output', f"final output {info['final']!r}, expected {cur!r}")
 
     nev = len(case['on_output']) + len(case['on_every_output'])
